@@ -80,8 +80,9 @@ def spell(rng, a, b, unit, pns):
     return dec(da / NS[u]), u, dec(db / NS[u]), ""
 
 
-def render(rng, f, unit, pns, record):
-    """Spec text with every interval spelled; `record` collects (a,b,spelling)."""
+def render(rng, f, unit, pns, record, unless=False):
+    """Spec text with every interval spelled; `record` collects (a,b,spelling).  `unless`: the bounded until operators are
+    written `unless` (sugar for `always[0,b] p or p until[a,b] q`: the parser derives a second interval from the written one)."""
     def bound_pair(node):
         sp = spell(rng, node[2], node[3], unit, pns)
         record.append((node[2], node[3], sp))
@@ -94,7 +95,7 @@ def render(rng, f, unit, pns, record):
             return "(%s[%s%s,%s%s] (%s))" % (F.T1_TXT[x[1]], bt, bu, et, eu, go(x[4]))
         if k == "tb2":
             bt, bu, et, eu = bound_pair(x)
-            return "((%s) %s[%s%s,%s%s] (%s))" % (go(x[4]), x[1], bt, bu, et, eu, go(x[5]))
+            return "((%s) %s[%s%s,%s%s] (%s))" % (go(x[4]), "unless" if unless and x[1] == "until" else x[1], bt, bu, et, eu, go(x[5]))
         if k in ("v", "c"):
             return F.to_text(x)
         if k == "u":
@@ -135,7 +136,8 @@ def gen_case(rng):
             break
     n = rng.randint(2, 10)
     vs = F.variables(f) or ["a"]
-    return {"monitor": monitor, "f": f, "n": n, "data": F.gen_trace(rng, vs, n), "decl": vs}
+    unless = monitor in ("offd", "past") and any(x[0] == "tb2" and x[1] == "until" for x in F.subformulas(f)) and rng.random() < 0.5
+    return {"monitor": monitor, "f": f, "n": n, "data": F.gen_trace(rng, vs, n), "decl": vs, "unless": unless}
 
 
 def model_intervals(items):
@@ -153,7 +155,10 @@ def frac_txt(s):
 
 def check_case(ctx, case, rng):
     f, n, data, vs, mon = case["f"], case["n"], case["data"], case["decl"], case["monitor"]
+    unl = bool(case.get("unless"))
     base_text = "out = " + F.to_text(f)
+    if unl:
+        base_text = base_text.replace(" until[", " unless[")
     base = run_monitor(mon, base_text, vs, data, n, "s", Fraction(1), "s")
     rep = {"monitor": mon, "formula": F.to_proto(f), "data": data, "n": n, "baseline_spec": base_text, "baseline": base}
     if base[0] != "ok":
@@ -165,9 +170,11 @@ def check_case(ctx, case, rng):
         pns = period * NS[punit]
         for _ in range(3):
             rec = []
-            text = render(rng, f, unit, pns, rec)
+            text = render(rng, f, unit, pns, rec, unl)
             ctx.evaluations += 1
             ctx.count("monitor:" + mon)
+            if unl:
+                ctx.count("unless-sugar")
             out = run_monitor(mon, text, vs, data, n, unit, period, punit)
             rep2 = dict(rep, spec=text, unit=unit, period=str(period), period_unit=punit, impl=out)
             if out[0] != "ok":
@@ -193,7 +200,7 @@ def check_case(ctx, case, rng):
     def sub(x):
         return x
     rec = []
-    text = render(rng, f, unit, pns, rec)
+    text = render(rng, f, unit, pns, rec, unl)
     sp = rec[0][2]
     old = "[%s%s,%s%s]" % sp
     new = "[%s%s,%s%s]" % (dec(first[2] * pns / NS[u]), u, dec(bad_b / NS[u]), u)
